@@ -2,6 +2,7 @@
 import itertools
 import random
 import warnings
+from collections import Counter
 
 import numpy as np
 
@@ -9,10 +10,20 @@ import common as C
 import gen as G
 
 LEVEL = "proof"
-TRUSTED = ["model: coq/Model/Threshold.v (thr_go run detection with epoch cursor; runs_go for dropna); theorems: Proofs/ThresholdProofs.v"]
-ASSUMPTIONS = ["timestamps strictly increasing (duplicate timestamps with mixed kept/rejected make a midpoint coincide with both samples; outside the theorems)",
-               "exhaustive cases on even ticks of the dyadic lattice 2^-8 s so that midpoints are whole ticks and exact in float",
-               "dropna theorems assume consecutive samples more than 1 us apart (a kept singleton is widened by 1 us)"]
+TRUSTED = ["model: coq/Model/Threshold.v (thr_go run detection with epoch cursor; runs_go for dropna); theorems: Proofs/ThresholdProofs.v",
+           "the IntervalSet constructor applied to the raw (starts, ends) of threshold / dropna (rounding to ns, dropping zero-length intervals, joining / trimming) "
+           "is NOT part of the C07 model: the model support is compared with the implementation only when it is canonical on whole ticks; "
+           "the statement oracle runs on every case"]
+ASSUMPTIONS = ["the threshold theorems assume strictly increasing timestamps (C07 sections 1-4); the oracle does not: duplicate timestamps are generated (all kept, all rejected, mixed). "
+               "Refutation witnesses for repeated timestamps: C07_contains_kept_refuted_with_duplicates, C07_excludes_rejected_refuted_with_shared_time",
+               "a kept and a rejected sample AT ONE TIMESTAMP cannot be separated by any support (C07_shared_time_inseparable): the statement cannot hold there; "
+               "violations located within 1 us of such a timestamp carry within_1us_of_time_shared_by_kept_and_rejected",
+               "a kept and a rejected neighbour exactly 1 ns apart have no representable midpoint (times have ns resolution; C07_one_tick_neighbours_refuted): "
+               "violations located within 1 us of such a pair carry within_1us_of_kept_rejected_pair_1ns_apart (threshold) / kept_singleton_1ns_before_rejected (dropna)",
+               "dropna: C07_dropna assumes all consecutive samples more than 1 us apart; C07_dropna_exact / _converse give the exact condition (a lone kept row is more than 1 us before the next row); "
+               "the oracle assumes nothing",
+               "the statement does not ask the dropna support to lie inside the old one (it bridges gaps and can extend 1 us past the old end): not checked",
+               "dropna with the default support is not run on a series whose timestamps all coincide (its default support is empty and it holds no sample: zero-span quirk, see C04/C08)"]
 
 U2 = 2 * 1953125
 METHODS = {"above": lambda v, t: v > t, "below": lambda v, t: v < t, "aboveequal": lambda v, t: v >= t, "belowequal": lambda v, t: v <= t}
@@ -28,89 +39,262 @@ def sup(o):
     return [(C.to_ns(s), C.to_ns(e)) for s, e in o.time_support.values]
 
 
-def check_threshold(nap, ts, vals, ep, method, thr, model_sup, res):
-    inp = {"ts": ts, "values": vals, "ep": ep, "method": method, "thr": thr}
+def _bad_times(exp_t, got_t):
+    """times at which the multiset of returned timestamps differs from the expected one"""
+    a, b = Counter(exp_t), Counter(got_t)
+    return sorted(set((a - b) + (b - a)))
+
+
+def _interval_of(t, ep):
+    for a, b in ep:
+        if a <= t <= b:
+            return (a, b)
+    return (t, t)
+
+
+def _classes(ts, kept):
+    cls = {}
+    for t, k in zip(ts, kept):
+        cls.setdefault(t, set()).add(bool(k))
+    return cls, {t for t, c in cls.items() if len(c) == 2}
+
+
+THR_CAUSES = ["within_1us_of_time_shared_by_kept_and_rejected", "all_samples_of_interval_coincide", "within_1us_of_kept_rejected_pair_1ns_apart"]
+
+
+def _thr_cause(t, ts, kept, ep):
+    """The precise trigger of a violation located at sample time t (None = none of the recorded ones):
+       within_1us_of_time_shared_by_kept_and_rejected: a kept and a rejected sample of t's interval carry one and the same timestamp u, |t - u| <= 1 us
+            (no support separates them; the zero-length / touching raw intervals this produces make the IntervalSet constructor trim 1 us);
+       all_samples_of_interval_coincide: >= 2 samples, all kept, all at time t, are the only samples of their interval of the old support;
+       within_1us_of_kept_rejected_pair_1ns_apart: a kept and a rejected sample of t's interval are exactly 1 ns apart, both within 1 us of t
+            (their midpoint is not representable: times have ns resolution)."""
+    cls, shared = _classes(ts, kept)
+    a, b = _interval_of(t, ep)
+    here = sorted(u for u in cls if a <= u <= b)
+    if any(u in shared and abs(u - t) <= 1000 for u in here):
+        return THR_CAUSES[0]
+    if cls.get(t) == {True} and here == [t] and sum(1 for u in ts if u == t) >= 2:
+        return THR_CAUSES[1]
+    for u, v in zip(here, here[1:]):
+        if v - u == 1 and cls[u] != cls[v] and abs(u - t) <= 1000 and abs(v - t) <= 1000:
+            return THR_CAUSES[2]
+    return None
+
+
+def _report(res, key, causes, what, inp, bad, cause_of, **extra):
+    """one violation per distinct cause among the offending times; returns the set of causes"""
+    groups = {}
+    for t in bad:
+        groups.setdefault(cause_of(t), []).append(t)
+    if not bad:
+        groups[None] = []
+    for c, at in groups.items():
+        res.violations.append(dict({"key": dict(key, **{n: n == c for n in causes}), "what": what, "input": inp, "at": at}, **extra))
+    return set(groups)
+
+
+def check_threshold(nap, ts, vals, ep, method, thr, model_sup, res, dtype="float"):
+    """the statement, clause by clause, on tsd.threshold(thr, method); ts / ep in integer ns, ts sorted (duplicates allowed), all inside ep"""
+    inp = {"ts": ts, "values": vals, "ep": ep, "method": method, "thr": thr, "dtype": dtype}
     epo = nap.IntervalSet(G.arr([a for a, _ in ep]), G.arr([b for _, b in ep]))
-    x = nap.Tsd(G.arr(ts), np.asarray(vals, dtype=float), time_support=epo)
-    if len(x) != len(ts):
-        return
+    x = nap.Tsd(G.arr(ts), np.asarray(vals, dtype=np.int64 if dtype == "int" else float), time_support=epo)
+    if len(x) != len(ts) or (ts and sup(x) != [tuple(i) for i in ep]):      # (an empty series always gets an empty support)
+        raise RuntimeError("C07 generator: the constructor changed the input (samples outside the support or non-canonical support): %r" % (inp,))
     kept = [bool(METHODS[method](v, thr)) for v in vals]
     key = {"op": "threshold", "method": method}
     try:
         r = x.threshold(thr, method)
     except Exception as ex:
-        res.violations.append({"key": dict(key, part="exception"), "what": "threshold raised " + type(ex).__name__, "input": inp})
+        res.violations.append({"key": dict(key, part="exception"), "what": "threshold raised " + type(ex).__name__ + ": " + str(ex)[:120], "input": inp})
         return
     exp_t = [t for t, k in zip(ts, kept) if k]
     exp_v = [v for v, k in zip(vals, kept) if k]
     S = sup(r)
-    if [C.to_ns(t) for t in r.t] != exp_t or list(r.values) != exp_v:
-        res.violations.append({"key": dict(key, part="kept"), "what": "threshold does not keep exactly the samples satisfying the comparison", "input": inp,
-                               "impl": {"t": [C.to_ns(t) for t in r.t], "support": S}, "expected": exp_t})
-        return
-    for t, k in zip(ts, kept):
-        if G.mem(t, S) != k:
-            res.violations.append({"key": dict(key, part="separates"), "what": "new support does not separate kept from rejected samples", "input": inp, "impl": S, "t": t})
+    got_t = [C.to_ns(t) for t in r.t]
+    _, shared = _classes(ts, kept)
+    cause = lambda t: _thr_cause(t, ts, kept, ep)
+    lost = set()
+    # 1. exactly the samples satisfying the comparison, each with its timestamp and value
+    if got_t != exp_t or list(r.values) != exp_v:
+        bad = _bad_times(exp_t, got_t)
+        cs = _report(res, dict(key, part="kept"), THR_CAUSES, "threshold does not keep exactly the samples satisfying the comparison", inp, bad, cause,
+                     impl={"t": got_t, "support": S}, expected=exp_t)
+        if cs != {THR_CAUSES[0]}:
             return
-    if [C.to_ns(t) for t in x.restrict(r.time_support).t] != exp_t:
+        # the only missing samples sit on / next to a timestamp carrying both a kept and a rejected sample: go on with the other samples
+        lost = set(bad)
+    # 2. the new support contains every kept sample and no rejected sample
+    bad = sorted({t for t, k in zip(ts, kept) if t not in shared and t not in lost and G.mem(t, S) != k})
+    bad += sorted(t for t in shared if t not in lost and G.mem(t, S))       # contains a rejected sample (the kept one at the same time is inside too)
+    if bad:
+        cs = _report(res, dict(key, part="separates"), THR_CAUSES, "new support does not separate kept from rejected samples", inp, bad, cause, impl=S)
+        if cs != {THR_CAUSES[0]}:
+            return
+    skip = shared | lost | set(bad)
+    # 2b. ... so restricting the original to it reproduces the result (away from the timestamps already reported)
+    if [C.to_ns(t) for t in x.restrict(r.time_support).t if C.to_ns(t) not in skip] != [t for t in exp_t if t not in skip]:
         res.violations.append({"key": dict(key, part="restrict"), "what": "restricting the original to the new support does not reproduce the result", "input": inp, "impl": S})
         return
+    # 3. inside the old support: no new interval extends beyond, or bridges the gap between, old intervals
     for s, e in S:
         if not any(a <= s and e <= b for a, b in ep):
             res.violations.append({"key": dict(key, part="inside"), "what": "a new interval extends beyond / bridges intervals of the old support", "input": inp, "impl": S})
             return
-    # midpoints between kept/rejected neighbours of the same interval
+    # 4. a boundary between a kept and a rejected neighbour of the same interval is their midpoint: exactly when it is a whole ns,
+    #    else one of the two ns next to it (the constructor rounds to ns).  Pairs at one timestamp have no boundary; pairs with a sample
+    #    reported above (lost next to a shared timestamp) are skipped.
     for (t0, k0), (t1, k1) in zip(zip(ts, kept), zip(ts[1:], kept[1:])):
         same = any(a <= t0 and t1 <= b for a, b in ep)
-        if same and k0 != k1:
+        if same and k0 != k1 and t0 != t1 and t0 not in lost and t1 not in lost:
             mid2 = t0 + t1
             ends2 = [2 * e for _, e in S] if k0 else [2 * s for s, _ in S]
-            if not any(abs(v - mid2) <= 1 for v in ends2):
-                res.violations.append({"key": dict(key, part="midpoint"), "what": "boundary between kept and rejected neighbours is not their midpoint", "input": inp, "impl": S})
+            if not any(abs(v - mid2) == mid2 % 2 for v in ends2):
+                _report(res, dict(key, part="midpoint"), THR_CAUSES[:1], "boundary between kept and rejected neighbours is not their midpoint", inp, [t0 if k0 else t1],
+                        lambda t: cause(t) if cause(t) == THR_CAUSES[0] else None, impl=S, pair=[t0, t1])
                 return
     if model_sup is not None and S != model_sup:
         res.disagreements.append({"op": "threshold", "input": inp, "impl": S, "model": model_sup})
 
 
-def check_dropna(nap, ts, keep, res, model_sup, cls="Tsd"):
-    inp = {"ts": ts, "keep": keep, "class": cls}
+def _runs(ts, keep):
+    """maximal runs of consecutive kept rows: (first time, last time)"""
+    out, cur = [], None
+    for t, k in zip(ts, keep):
+        if k:
+            cur = (cur[0], t) if cur else (t, t)
+        elif cur:
+            out.append(cur)
+            cur = None
+    if cur:
+        out.append(cur)
+    return out
+
+
+DROP_CAUSES = ["within_1us_of_time_shared_by_kept_and_rejected", "kept_singleton_1ns_before_rejected", "kept_singleton_exactly_1us_before_next_kept_run",
+               "rejected_within_1us_after_kept_singleton"]
+
+
+def check_dropna(nap, ts, keep, res, model_sup, cls="Tsd", support="wide"):
+    """the statement on x.dropna(); support: 'wide' (one explicit interval around all samples), 'default' (none given), or a list of intervals (ns)"""
+    inp = {"ts": ts, "keep": keep, "class": cls, "support": support}
     n = len(ts)
-    wide = nap.IntervalSet(ts[0] / 1e9 - 1.0, ts[-1] / 1e9 + 1.0)  # explicit support: a zero-span series has an empty default support
+    if support == "wide":   # explicit support: a zero-span series has an empty default support
+        kw = {"time_support": nap.IntervalSet(ts[0] / 1e9 - 1.0, ts[-1] / 1e9 + 1.0)}
+    elif support == "default":
+        kw = {}
+    else:
+        kw = {"time_support": nap.IntervalSet(G.arr([a for a, _ in support]), G.arr([b for _, b in support]))}
     if cls == "Tsd":
         d = np.array([float(i + 1) if k else np.nan for i, k in enumerate(keep)])
-        x = nap.Tsd(G.arr(ts), d, time_support=wide)
+        x = nap.Tsd(G.arr(ts), d, **kw)
     elif cls == "TsdFrame":
         d = np.arange(2 * n, dtype=float).reshape(n, 2) + 1
         for i, k in enumerate(keep):
             if not k:
                 d[i, i % 2] = np.nan
-        x = nap.TsdFrame(G.arr(ts), d, columns=["a", "b"], time_support=wide)
+        x = nap.TsdFrame(G.arr(ts), d, columns=["a", "b"], **kw)
     else:
         d = np.arange(4 * n, dtype=float).reshape(n, 2, 2) + 1
         for i, k in enumerate(keep):
             if not k:
                 d[i, i % 2, (i // 2) % 2] = np.nan
-        x = nap.TsdTensor(G.arr(ts), d, time_support=wide)
+        x = nap.TsdTensor(G.arr(ts), d, **kw)
     if len(x) != n:
-        return
-    r = x.dropna()
-    exp_t = [t for t, k in zip(ts, keep) if k]
+        raise RuntimeError("C07 generator: the constructor dropped samples: %r" % (inp,))
     key = {"op": "dropna", "class": cls}
-    close = any(b - a <= 1000 for a, b in zip(ts, ts[1:]))
-    key["samples_within_1us"] = bool(close)
-    if [C.to_ns(t) for t in r.t] != exp_t or not np.array_equal(np.asarray(r.values), np.asarray(x.values)[[i for i, k in enumerate(keep) if k]]):
-        res.violations.append({"key": dict(key, part="kept"), "what": "dropna does not keep exactly the rows without NaN", "input": inp, "impl": [C.to_ns(t) for t in r.t]})
+    try:
+        r = x.dropna()
+    except Exception as ex:
+        res.violations.append({"key": dict(key, part="exception"), "what": "dropna raised " + type(ex).__name__ + ": " + str(ex)[:120], "input": inp})
         return
+    exp_t = [t for t, k in zip(ts, keep) if k]
+    cl, shared = _classes(ts, keep)
+    runs = _runs(ts, keep)
+    singles = [a for a, b in runs if a == b]                       # runs widened by 1 us: [t, t + 1 us]
+    # a kept singleton whose widened end exactly meets the start of the next kept run: the constructor trims it back to [t, t] and drops it
+    meets_next = {a for (a, b), (c, _) in zip(runs, runs[1:]) if a == b and c - b == 1000}
+
+    def cause(t):
+        """within_1us_of_time_shared_by_kept_and_rejected: a kept and a rejected row carry one timestamp u, |t - u| <= 1 us;
+           kept_singleton_1ns_before_rejected: t is a kept run of a single timestamp with a rejected row at t + 1 ns, or that rejected row (nothing fits between them);
+           kept_singleton_exactly_1us_before_next_kept_run: t is a kept run of a single timestamp and the next kept run starts at t + 1 us (the row is LOST);
+           rejected_within_1us_after_kept_singleton: t is rejected and a kept run of a single timestamp u has u + 1 ns < t <= u + 1 us (t is inside the new support)"""
+        if any(abs(u - t) <= 1000 for u in shared):
+            return DROP_CAUSES[0]
+        if (cl.get(t) == {False} and t - 1 in singles) or (t in singles and cl.get(t + 1) == {False}):
+            return DROP_CAUSES[1]
+        if cl.get(t) == {True} and t in meets_next:
+            return DROP_CAUSES[2]
+        if cl.get(t) == {False} and any(0 < t - u <= 1000 for u in singles):
+            return DROP_CAUSES[3]
+        return None
+
     S = sup(r)
-    for t, k in zip(ts, keep):
-        if G.mem(t, S) != k and exp_t:
-            res.violations.append({"key": dict(key, part="separates"), "what": "dropna support does not separate kept from rejected samples", "input": inp, "impl": S, "t": t})
+    got_t = [C.to_ns(t) for t in r.t]
+    rows = [i for i, k in enumerate(keep) if k]
+    lost = set()
+    if got_t != exp_t:
+        bad = _bad_times(exp_t, got_t)
+        cs = _report(res, dict(key, part="kept"), DROP_CAUSES, "dropna does not keep exactly the rows without NaN", inp, bad, cause, impl={"t": got_t, "support": S})
+        if cs != {DROP_CAUSES[0]}:
             return
-    if exp_t and [C.to_ns(t) for t in x.restrict(r.time_support).t] != exp_t:
+        lost = set(bad)
+    elif not np.array_equal(np.asarray(r.values), np.asarray(x.values)[rows]):
+        res.violations.append({"key": dict(key, part="values"), "what": "dropna keeps the right timestamps with the wrong rows", "input": inp})
+        return
+    bad = sorted({t for t, k in zip(ts, keep) if t not in shared and t not in lost and G.mem(t, S) != k})
+    bad += sorted(t for t in shared if t not in lost and G.mem(t, S))
+    if bad:
+        cs = _report(res, dict(key, part="separates"), DROP_CAUSES, "dropna support does not separate kept from rejected samples", inp, bad, cause, impl=S)
+        if cs != {DROP_CAUSES[0]}:
+            return
+    skip = shared | lost | set(bad)
+    if [C.to_ns(t) for t in x.restrict(r.time_support).t if C.to_ns(t) not in skip] != [t for t in exp_t if t not in skip]:
         res.violations.append({"key": dict(key, part="restrict"), "what": "restricting the original to the dropna support does not reproduce the result", "input": inp, "impl": S})
         return
     if model_sup is not None and exp_t and len(exp_t) < n and S != model_sup:
         res.disagreements.append({"op": "dropna", "input": inp, "impl": S, "model": model_sup})
+
+
+# ------------------------------------------------------------------------------------------------------------------------
+EPS = [[(0, 7 * U2)], [(0, 3 * U2), (4 * U2, 7 * U2)], [(0, U2), (2 * U2, 3 * U2), (4 * U2, 7 * U2)], [(0, 2 * U2), (3 * U2, 4 * U2), (5 * U2, 7 * U2)],
+       [(0, U2), (2 * U2, 5 * U2), (6 * U2, 7 * U2)], [(U2, 2 * U2), (3 * U2, 4 * U2), (5 * U2, 6 * U2)]]
+
+# regression seeds of the audit (ep, ts, values), thr = 1
+SEEDS = [([(0, 10**9)], [5 * 10**8, 5 * 10**8], [2, 2]),                      # two kept duplicates alone in their interval
+         ([(0, 3 * 10**9)], [0, 10**9, 10**9, 2 * 10**9], [0, 2, 0, 2]),      # kept and rejected at the same time
+         ([(0, 3 * 10**9)], [10**9, 10**9], [2, 0]),
+         ([(-10**9, 5 * 10**9)], [0, 1, 2, 10**9], [2, 0, 2, 0]),             # 1 ns spacing
+         ([(-10**9, 5 * 10**9)], [0, 3, 6, 10**9], [2, 0, 2, 0]),             # odd spacing: midpoints on half ns
+         ([(0, 10), (20, 30)], [3, 3, 20, 20, 20], [2, 2, 0, 2, 2])]
+
+GAPS = [0, 0, 1, 1, 2, 3, 4, 5, 7, 10, 999, 1000, 1001, 2000, 10**6, 10**6 + 1, 3 * 10**8]
+
+
+def rand_ns_case(rng):
+    """ns-resolution case: 1-3 intervals, <= 6 samples inside them, consecutive gaps drawn from GAPS (0 = duplicate, 1 ns, odd, around 1 us, large)"""
+    m = rng.randint(1, 3)
+    base = rng.choice([0, 0, -7 * 10**9, 123456789, 86400 * 10**9 + 1])
+    ep, ts, x = [], [], base
+    for _ in range(m):
+        k = rng.choice([0, 1, 1, 2, 2, 3, 4])
+        pad0, pad1 = rng.choice([0, 0, 1, 2, 1000, 10**6]), rng.choice([0, 0, 1, 2, 1000, 10**6])
+        s = x
+        x += pad0
+        here = []
+        for i in range(k):
+            if i:
+                x += rng.choice(GAPS)
+            here.append(x)
+        x += pad1
+        if x == s:
+            x += rng.choice([1, 2, 1000])
+        ep.append((s, x))
+        ts += here
+        x += rng.choice([1, 2, 1001, 10**6, 10**8])     # strict gap: the constructor leaves the support alone
+    ts = ts[:6]
+    return ep, ts, [rng.choice([0, 1, 2]) for _ in ts]
 
 
 def run(res, tier, seed):
@@ -118,74 +302,111 @@ def run(res, tier, seed):
     warnings.simplefilter("ignore")
     N = 8
     pts = G.lattice(N, step=U2)
-    eps = [[(0, 7 * U2)], [(0, 3 * U2), (4 * U2, 7 * U2)], [(0, U2), (2 * U2, 3 * U2), (4 * U2, 7 * U2)], [(0, 2 * U2), (3 * U2, 4 * U2), (5 * U2, 7 * U2)],
-           [(0, U2), (2 * U2, 5 * U2), (6 * U2, 7 * U2)], [(U2, 2 * U2), (3 * U2, 4 * U2), (5 * U2, 6 * U2)]]
     nmax = 4 if tier == "quick" else 5
-    res.rule = ("threshold: ALL (6 supports with 1-3 intervals incl. empty intervals and first sample not in first interval) x (<=%d distinct samples inside the support on an 8-point "
-                "even-tick dyadic lattice) x (all value patterns in {0,1,2}^n against thr=1) x 4 methods [complete]; dropna: all NaN masks for Tsd, subsample for TsdFrame/TsdTensor, "
-                "plus decimal cases with sub-microsecond spacing. Oracle = the statement (kept exact, separation, restrict reproduces, inside old support, midpoints); "
-                "model correspondence on the new support. non-trivial = >=2 samples with both kept and rejected" % nmax)
+    dmax = 4                                            # multisets with repeated timestamps: up to 4 samples
+    nrand = 1000 if tier == "quick" else 15000
+    res.rule = ("threshold: ALL (6 supports with 1-3 intervals incl. empty intervals and first sample not in first interval) x (<=%d distinct samples, and every MULTISET of <=%d samples with "
+                "repeated timestamps, inside the support on an 8-point even-tick dyadic lattice) x (all value patterns in {0,1,2}^n against thr=1) x 4 methods "
+                "[thorough: complete for distinct samples and for multisets of <=3, 30000 sampled multisets of 4; quick: 3000 + 1500 sampled]; "
+                "plus %d random ns-resolution cases (1-3 intervals, <=6 samples, gaps 0 / 1 ns / odd / ~1 us / large, float and int64 data) x 4 methods, plus the audit's seeds. "
+                "dropna: all NaN masks over all multisets of <=%d lattice points for Tsd (TsdFrame/TsdTensor every 7th), each under one wide interval, the default support and one "
+                "multi-interval support containing the samples (rotating) [quick: 1200 sampled]; plus 300 (thorough 3000) ns-resolution cases with gaps 0 / 1 ns / <1 us / =1 us / 1-2 us / >2 us. Oracle = the statement (kept exact, separation, "
+                "restrict reproduces, threshold inside old support, midpoints exact up to ns rounding), no exemption: what cannot hold (kept and rejected at one timestamp, 1 ns neighbours) "
+                "is reported under a dedicated key. Model correspondence on the new support when the raw model support is canonical on whole ticks. "
+                "non-trivial = >=2 samples with both kept and rejected" % (nmax, dmax, nrand, nmax))
     res.exhaustive = True
     rng = random.Random(seed * 11 + 3)
-    cases = []
-    for ep in eps:
+    distinct, dups = [], []
+    for ep in EPS:
         for n in range(0, nmax + 1):
-            for ts in itertools.combinations(pts, n):
-                if not all(G.mem(x, ep) for x in ts):
+            for ts in itertools.combinations_with_replacement(pts, n):
+                rep = len(set(ts)) < n
+                if (rep and n > dmax) or not all(G.mem(x, ep) for x in ts):
                     continue
                 for vals in itertools.product([0, 1, 2], repeat=n):
-                    cases.append((ep, list(ts), list(vals)))
+                    (dups if rep else distinct).append((ep, list(ts), list(vals)))
     if tier == "quick":
-        cases = rng.sample(cases, 5000) + [c for c in cases if len(c[1]) <= 1]
+        cases = rng.sample(distinct, 3000) + rng.sample(dups, 1500) + [c for c in distinct if len(c[1]) <= 1]
+    else:
+        cases = distinct + [c for c in dups if len(c[1]) <= 3] + rng.sample([c for c in dups if len(c[1]) == 4], 30000)
     offs = [0, -3 * U2, -1000 * U2]
-    cases = [([(a + offs[n % 3], b + offs[n % 3]) for a, b in ep], [t + offs[n % 3] for t in ts], vals) for n, (ep, ts, vals) in enumerate(cases)]
+    cases = [([(a + offs[n % 3], b + offs[n % 3]) for a, b in ep], [t + offs[n % 3] for t in ts], vals, "float") for n, (ep, ts, vals) in enumerate(cases)]
+    nlat = len(cases)
+    cases += [(ep, ts, vals, "float") for ep, ts, vals in SEEDS]
+    for i in range(nrand):
+        ep, ts, vals = rand_ns_case(rng)
+        cases.append((ep, ts, vals, "int" if i % 4 == 3 else "float"))
     lines = []
-    for ep, ts, vals in cases:
+    for ep, ts, vals, _ in cases:
         for m in METHODS:
             kept = [1 if METHODS[m](v, 1) else 0 for v in vals]
             lines.append("threshold\t%s\t%s\t%s" % (C.fmt_iset(ep), C.fmt_ints(ts), C.fmt_ints(kept)))
     out = C.run_model(lines)
-    for n, (ep, ts, vals) in enumerate(cases):
+    for n, (ep, ts, vals, dt) in enumerate(cases):
         for j, m in enumerate(METHODS):
             kept = [METHODS[m](v, 1) for v in vals]
             res.case((tuple(ep), tuple(ts), tuple(kept)), nontrivial=len(ts) >= 2 and any(kept) and not all(kept))
             mv = [int(x) for x in out[4 * n + j].split()]
-            msup = [(a // 2, b // 2) for a, b in zip(mv[0::2], mv[1::2])]
-            # the constructor drops nothing here (raw support canonical); model halves are exact on even ticks
-            check_threshold(nap, ts, vals, ep, m, 1, msup, res)
+            # the model support is in doubled ticks and raw (before the IntervalSet constructor): comparable when every bound is a whole tick and the set is canonical
+            msup = [(a // 2, b // 2) for a, b in zip(mv[0::2], mv[1::2])] if all(v % 2 == 0 for v in mv) else None
+            if msup is None or not G.canonical(msup):
+                msup = None
+                res.count("threshold:model_support_not_comparable(half-tick or non-canonical raw support)")
+            check_threshold(nap, ts, vals, ep, m, 1, msup, res, dt)
         res.count("n_samples=%d" % len(ts))
         res.count("n_intervals=%d" % len(ep))
+        res.count("threshold:" + ("lattice" if n < nlat else "ns-resolution") + (",duplicates" if len(set(ts)) < len(ts) else ""))
+        if any(b - a == 1 for a, b in zip(ts, ts[1:])):
+            res.count("threshold:has_1ns_gap")
         if n % 1501 == 0:
             res.sample({"ep": ep, "ts": ts, "values": vals, "model_support_above": out[4 * n]})
     # dropna
     dcases = []
     for n in range(1, nmax + 1):
-        for ts in itertools.combinations(pts, n):
+        for ts in itertools.combinations_with_replacement(pts, n):
             for keep in itertools.product([0, 1], repeat=n):
                 dcases.append((list(ts), list(keep)))
     if tier == "quick":
-        dcases = rng.sample(dcases, 1500)
-    # sub-microsecond spacing (decimal): a kept singleton widened by 1us can swallow a rejected neighbour
-    for _ in range(60 if tier == "quick" else 600):
+        dcases = rng.sample(dcases, 1200)
+    # ns resolution: a kept singleton is widened by 1 us; gaps below, at and above 1 us, duplicates
+    dgaps = [0, 1, 500, 500, 999, 1000, 1000, 1001, 1500, 2000, 2001, 5000]
+    for _ in range(300 if tier == "quick" else 3000):
         n = rng.randint(2, 5)
-        ts = sorted(rng.sample(range(0, 6000, 500), n))
+        ts = [rng.choice([0, 0, 10**9 + 7, -5000])]
+        for _ in range(n - 1):
+            ts.append(ts[-1] + rng.choice(dgaps))
         dcases.append((ts, [rng.randint(0, 1) for _ in range(n)]))
+    dcases += [([0, 500, 1000], [1, 0, 1]), ([0, 1000, 2 * 10**9], [1, 0, 1]), ([0, 500], [1, 0])]
     mo = C.run_model(["dropna\t%s\t%s" % (C.fmt_ints(ts), C.fmt_ints(k)) for ts, k in dcases])
     for n, ((ts, keep), o) in enumerate(zip(dcases, mo)):
         mv = [int(x) for x in o.split()]
         msup = list(zip(mv[0::2], mv[1::2]))
         res.case((tuple(ts), tuple(keep), "dropna"), nontrivial=any(keep) and not all(keep))
         # model support goes through the constructor (touching after +1us widening is trimmed): compare only when canonical
-        check_dropna(nap, ts, keep, res, msup if G.canonical(msup) else None, "Tsd")
+        msup = msup if G.canonical(msup) else None
+        sups = ["wide"]
+        if ts[0] < ts[-1]:
+            sups.append("default")              # a zero-span series has an empty default support and no samples
+        else:
+            res.count("dropna:default_support_skipped(zero-span series)")
+        multi = [ep for ep in EPS[1:] if all(G.mem(t, ep) for t in ts)]
+        if multi:
+            sups.append(multi[n % len(multi)])
+        for s in sups:
+            check_dropna(nap, ts, keep, res, msup, "Tsd", s)
+            res.count("dropna:support=" + (s if isinstance(s, str) else "multi-interval"))
+        if len(set(ts)) < len(ts):
+            res.count("dropna:duplicates")
         if n % 7 == 0:
-            check_dropna(nap, ts, keep, res, None, "TsdFrame")
-            check_dropna(nap, ts, keep, res, None, "TsdTensor")
+            check_dropna(nap, ts, keep, res, msup, "TsdFrame", sups[n % len(sups)])
+            check_dropna(nap, ts, keep, res, msup, "TsdTensor", sups[(n + 1) % len(sups)])
 
 
 def search(res, seed):
     r2 = C.Result()
     run(r2, "thorough", seed)
-    return r2.violations[0] if r2.violations else None
+    new = [v for v in r2.violations if C.match_known("C07", v) is None]
+    return new[0] if new else (r2.violations[0] if r2.violations else None)
 
 
 def replay(payload):
@@ -195,9 +416,10 @@ def replay(payload):
     inp = v.get("input", {})
     r = C.Result()
     if "values" in inp:
-        check_threshold(nap, inp["ts"], inp["values"], [tuple(x) for x in inp["ep"]], inp["method"], inp["thr"], None, r)
+        check_threshold(nap, inp["ts"], inp["values"], [tuple(x) for x in inp["ep"]], inp["method"], inp["thr"], None, r, inp.get("dtype", "float"))
     else:
-        check_dropna(nap, inp["ts"], inp["keep"], r, None, inp.get("class", "Tsd"))
+        s = inp.get("support", "wide")
+        check_dropna(nap, inp["ts"], inp["keep"], r, None, inp.get("class", "Tsd"), s if isinstance(s, str) else [tuple(i) for i in s])
     print("input", inp)
     print("violations on this tree:", r.violations)
     return 1 if r.violations else 0
